@@ -96,8 +96,35 @@ def directed_from_inversions(tier):
     return cases
 
 
+def directed_update_vs_clear(rng, tier):
+    """every updating call of every family against every clearing call of the same family on the same resource, with a
+    preemption at every scheduling point of the updating thread: an update made of two critical
+    sections must not rely, in the second, on what the first put into the maps (seed C15-e: a concurrent clear in the gap made
+    the append panic with the map's lock held)"""
+    cases = []
+    fams = [f for f in POOL if f != "sys"] + ["sys"]
+    stride = 1            # these calls have some fifteen scheduling points in all: every one of them is tried
+    for fam in fams:
+        keys = POOL[fam]
+        updates = ["m fam=%s op=append rule=u1@r1@%s" % (fam, keys[0]),
+                   "m fam=%s op=loadall rules=u1@r1@%s,u2@r2@%s" % (fam, keys[0], keys[1 % len(keys)])]
+        clears = ["m fam=%s op=clear" % fam, "m fam=%s op=loadall rules=" % fam]
+        if fam != "sys":
+            updates.append("m fam=%s op=loadres res=r1 rules=u1@r1@%s" % (fam, keys[0]))
+            clears += ["m fam=%s op=clearres res=r1" % fam, "m fam=%s op=loadres res=r1 rules=" % fam]
+        for u in updates:
+            for c in clears:
+                if tier == "quick" and rng.random() < 0.5:
+                    continue
+                setup = ["clock"] + (["m fam=%s op=loadall rules=s0@r1@%s" % (fam, keys[-1])] if rng.random() < 0.5 else [])
+                for pos in range(0, 24 if tier == "quick" else 40, stride):
+                    ch = [0] * (pos + 1); ch[pos] = 1
+                    cases.append(setup + ["t0 " + u, "t1 " + c, fmt(ch), "probe"])
+    return cases
+
+
 def gen(rng, tier):
-    cases = directed_from_inversions(tier)
+    cases = directed_from_inversions(tier) + directed_update_vs_clear(rng, tier)
     cases += [case(rng, tier) for _ in range(500 if tier == "quick" else 8000)]
     # directed: a breaker reload while a listener calls back, against a concurrent entry
     for cb in (0, 1):
